@@ -1,0 +1,46 @@
+//go:build verif
+
+package dmg
+
+import (
+	"bytes"
+	"encoding/binary"
+)
+
+// Verification hooks (build tag "verif"): add-only accessors for the unexported UDIF trailer layer.
+
+// VerifKoly is what the package does with the 512-byte trailer: binary.Read into udifResourceFile, then the two
+// serialisations it ever produces (ForHashing, and binary.Write of the struct as read) and the fields it interprets.
+type VerifKoly struct {
+	ForHashing      []byte
+	Full            []byte
+	Magic           uint32
+	XMLOffset       int64
+	XMLLength       int64
+	SignatureOffset int64
+	SignatureLength int64
+}
+
+// VerifParseKoly runs the trailer parser of Sign on t.
+func VerifParseKoly(t []byte) (*VerifKoly, error) {
+	var rsf udifResourceFile
+	if err := binary.Read(bytes.NewReader(t), binary.BigEndian, &rsf); err != nil {
+		return nil, err
+	}
+	var b bytes.Buffer
+	_ = binary.Write(&b, binary.BigEndian, rsf)
+	return &VerifKoly{
+		ForHashing:      rsf.ForHashing(),
+		Full:            b.Bytes(),
+		Magic:           rsf.Signature,
+		XMLOffset:       rsf.XMLOffset,
+		XMLLength:       rsf.XMLLength,
+		SignatureOffset: rsf.SignatureOffset,
+		SignatureLength: rsf.SignatureLength,
+	}, nil
+}
+
+// VerifSigBlob returns what Open stored: the offset of the trailer and the signature blob.
+func (d *DMG) VerifSigBlob() (udifOffset int64, sigBlob []byte) {
+	return d.udifOffset, d.sigBlob
+}
